@@ -143,6 +143,8 @@ func (c *ProcCase) setup(dir string, variant string) (args []string, stdinPath s
 		}
 		args = append(args, prog)
 	}
+	// names are passed exactly as spelled (./x, sub//x, sub/../x): the directory they mention exists
+	os.MkdirAll(filepath.Join(dir, "sub"), 0o755)
 	for _, in := range inputs {
 		switch in.Kind {
 		case "missing":
@@ -152,6 +154,8 @@ func (c *ProcCase) setup(dir string, variant string) (args []string, stdinPath s
 			}
 		case "procmem":
 		default:
+			// names are passed exactly as spelled (./x, a//x, sub/../x): the
+			// directories they mention must exist
 			p := filepath.Join(dir, in.Name)
 			os.MkdirAll(filepath.Dir(p), 0o755)
 			if err = os.WriteFile(p, in.Data, 0o644); err != nil {
@@ -561,6 +565,20 @@ func genProcCase(t *Tape, c01only bool) *ProcCase {
 		c.Prog = []string{"", "{ print }", "-1 { print }", "# only a comment", "{ print $file }", "BEGIN { exit }", "{ print", "END { print 1 / 0 }"}[t.Draw(8)]
 		usesFile = strings.Contains(c.Prog, "$file")
 	}
+	// the program text as a byte string: endings and raw control characters must
+	// survive every way of handing it over
+	switch t.Weighted(10, 2, 2, 2, 1, 1) {
+	case 1:
+		c.Prog = strings.TrimRight(c.Prog, "\n")
+	case 2:
+		c.Prog = strings.ReplaceAll(c.Prog, "\n", "\r\n")
+	case 3:
+		c.Prog = "BEGIN { print \"raw cr\r\nlf in a string\", \"tab\there\" }\n" + c.Prog
+	case 4:
+		c.Prog = c.Prog + "# trailing comment without newline"
+	case 5:
+		c.Prog = c.Prog + "\n\n\n   \t"
+	}
 	c.ViaF = t.Chance(1, 3)
 	c.DashDash = t.Chance(1, 8)
 	// inputs
@@ -568,11 +586,15 @@ func genProcCase(t *Tape, c01only bool) *ProcCase {
 	case 0: // stdin
 		c.Stdin = QBytes(g.fileText(t.Draw(4)))
 	case 1: // one file
-		c.Inputs = []ProcFile{{Name: fileNames[t.Draw(3)], Data: QBytes(g.fileText(t.Draw(4))), Kind: "regular"}}
+		c.Inputs = []ProcFile{{Name: []string{"a.json", "b.json", "dir/c.json", "./d.json", "sub//e.json", "sub/../f.json", "./sub/./g.json", "h i.json"}[t.Draw(8)], Data: QBytes(g.fileText(t.Draw(4))), Kind: "regular"}}
 	default:
 		n := 2 + t.Draw(2)
 		for i := 0; i < n; i++ {
-			c.Inputs = append(c.Inputs, ProcFile{Name: fmt.Sprintf("in%d.json", i), Data: QBytes(g.fileText(t.Draw(3))), Kind: "regular"})
+			name := fmt.Sprintf("in%d.json", i)
+			if t.Chance(1, 4) {
+				name = []string{"./", "sub/../", "sub//", "./sub/"}[t.Draw(4)] + name
+			}
+			c.Inputs = append(c.Inputs, ProcFile{Name: name, Data: QBytes(g.fileText(t.Draw(3))), Kind: "regular"})
 		}
 	}
 	// selectors
